@@ -39,6 +39,7 @@ type zzBomb struct {
 	reads bool // consume the inbound byte (only the first handler does)
 	closeFirst bool // close the channel, then panic, in the same delivery
 	ctxClose   func()
+	saved      HandlerContext
 }
 
 func (b *zzBomb) maybe(kind int) {
@@ -50,7 +51,11 @@ func (b *zzBomb) maybe(kind int) {
 		zzThrow(b.pval)
 	}
 }
-func (b *zzBomb) HandleActive(ctx ActiveContext) { b.maybe(zzKActive); ctx.HandleActive() }
+func (b *zzBomb) HandleActive(ctx ActiveContext) {
+	b.saved = ctx // applications keep the handler context for later use from their own goroutines
+	b.maybe(zzKActive)
+	ctx.HandleActive()
+}
 func (b *zzBomb) HandleRead(ctx InboundContext, m Message) {
 	if r, ok := m.(io.Reader); ok && b.reads {
 		var buf [1]byte
@@ -99,6 +104,7 @@ func (i *zzInact) HandleInactive(ctx InactiveContext, ex Exception) {
 //
 //	0 read loop (active/read events)    1 Channel.Write    2 Channel.Trigger
 //	3 ctx.Write from inside a read handler    4 ctx.Trigger from inside a read handler
+//	5 ctx.Write / 6 ctx.Trigger through a handler context the application kept, from a goroutine of its own
 //
 // exmode: 0 no exception handler, 1 forwarding handler, 2 swallowing handler (both behind the failing handlers),
 // 3 forwarding, 4 swallowing handler in front of them.
@@ -138,6 +144,16 @@ func ZZ_C07_Panic(entry, on, pval, exmode, pos, q int) {
 		vrt.Assert(err == nil || !ch.IsActive(), "c07-write-error-only-when-closed")
 	case 2:
 		ch.Trigger(7)
+	case 5, 6:
+		// the application uses a handler context it kept, from a goroutine of its own (no framework frame above it)
+		vrt.Quiesce()
+		var escaped interface{}
+		if entry == 5 {
+			escaped = vrt.Panics(func() { bombs[1].saved.Write([]byte{0x41}) }) // travels towards the head through bombs[0]
+		} else {
+			escaped = vrt.Panics(func() { bombs[0].saved.Trigger(7) }) // travels towards the tail through bombs[1]
+		}
+		vrt.Assert(escaped == nil, "c07-panic-does-not-escape-into-the-caller")
 	}
 	// let the read loop deliver its byte and then block in Read (or finish, if the channel was closed)
 	dead := vrt.Quiesce()
